@@ -8,6 +8,7 @@ def check(ctx, rep):
     rep.minimum('GR-10', 5)
     gr.gr_8a(ctx, rep)
     gr.gr_8b(ctx, rep)
+    gr.gr_8c(ctx, rep)
     tc.tc_sites(ctx, rep, 'parso/python/tree.py', 'TC-1')
     dar.da_rule(ctx, rep, ['parso/python/tree.py'])
     rep.note('Not decided: the comparison with CPython\'s ast over all programs.')
